@@ -7,6 +7,8 @@ from weight import WeightModel
 
 from sym import ipaths
 
+import inline
+
 LEVEL = "other"
 EXPLANATION = ("The inputs of admission are only ever compared, so its behaviour is a finite decision table, extracted "
                "from MIR paths and compared with the TinyLFU specification: the over-weight / fits / must-evict rows of "
@@ -91,7 +93,8 @@ def run(ctx):
     pop_fns = {n for n, g in F.fns.items() if g.calls_to("std::collections::BinaryHeap::<T, A>::pop")}
     est_callee = None
     for en in sorted(evict_fns):
-        f = F.fn(en)
+        # a step of the loop extracted into a private helper (`evict(..)`, `status_when_exhausted(..)`) is the loop's own
+        f = inline.expand(F, F.fn(en), lambda n_: M.keep_in_expansion(n_) or n_ in pop_fns or n_ in dec_fns)
         ctx.touch(f)
         kd = ("param", 3)
         w = ("field", kd, "weight")
